@@ -274,11 +274,15 @@ class DefaultPredictionStrategy(object):
             observed = settings.observation_nan_policy._get_observed(
                 self.train_labels, torch.Size((self.train_labels.shape[-1],))
             )
-            mean_cache = torch.full_like(self.train_labels, torch.nan)
             kernel = MaskedLinearOperator(
                 train_train_covar.evaluate_kernel(), observed.reshape(-1), observed.reshape(-1)
             )
-            mean_cache[..., observed] = kernel.solve(train_labels_offset[..., observed, :]).squeeze(-1)
+            solve = kernel.solve(train_labels_offset[..., observed, :]).squeeze(-1)
+            # The hyperparameters may have a larger batch shape than the training labels
+            mean_cache = torch.full(
+                (*solve.shape[:-1], self.train_labels.shape[-1]), torch.nan, dtype=solve.dtype, device=solve.device
+            )
+            mean_cache[..., observed] = solve
         else:  # 'fill'
             # Fill all rows and columns in the kernel matrix corresponding to the missing observations with 0.
             # Don't touch the corresponding diagonal elements to ensure a unique solution.
@@ -295,7 +299,9 @@ class DefaultPredictionStrategy(object):
             kernel = kernel * kernel_mask  # Unfortunately, this makes the kernel dense at the moment.
             train_labels_offset = settings.observation_nan_policy._fill_tensor(train_labels_offset)
             mean_cache = kernel.solve(train_labels_offset).squeeze(-1)
-            mean_cache[missing] = torch.nan  # Ensure that nobody expects these values to be valid.
+            # Ensure that nobody expects these values to be valid.
+            # (masked_fill broadcasts: the hyperparameters may have a larger batch shape than the training labels)
+            mean_cache = mean_cache.masked_fill(missing, torch.nan)
         if settings.detach_test_caches.on():
             mean_cache = mean_cache.detach()
 
